@@ -97,8 +97,12 @@ let () =
              let window_empty =
                (let c = K.clip { K.p_start = cfg.bc.K.bc_from; K.p_end = cfg.bc.K.bc_to } (K.journal_period dl) in
                 K.Z.ltb c.K.p_end c.K.p_start) in
+             (* ... and of accounts and commodities that pass the --account / --commodity filters (cfg_where): with a
+                filter the expectation would have to be restricted to the commodities shown; such reports are compared
+                with the model only *)
+             let filtered = cfg.bc.K.bc_accounts <> [] || cfg.bc.K.bc_commodities <> [] in
              List.iter (fun b ->
-               if !verdict = "ok" && not window_empty then begin
+               if !verdict = "ok" && not window_empty && not filtered then begin
                  match K.mtm_row_mapped cfg.bc dl b with
                  | None -> fail "FAIL:a report was printed but the window of the specification does not exist"
                  | Some (srcs, exps) ->
